@@ -120,10 +120,10 @@ func (w *world) get(key string, f int) (string, ent) {
 	if !ok {
 		return "nf", e
 	}
-	if !e.own { // the snapshot entry of an own write carries no metadata: filters never hide it
-		if c := filt(e.md, f); c != "" {
-			return c, e
-		}
+	// point reads judge the transaction's own pending entry with the filters as well (an own tombstone is
+	// "not found"): since fix e644604 in OngoingTx.GetWithFilters; prefix reads and readers still do not
+	if c := filt(e.md, f); c != "" {
+		return c, e
 	}
 	return "", e
 }
